@@ -13,8 +13,9 @@ SPEC = {
         'overwrite_part (with O_EXCL: never reused otherwise); R5 a clobbering rename onto the destination only '
         'under overwrite, else os.link; R6 permission provenance explicit > replaced file > default-without-chmod '
         'by reaching definitions at os.open/os.chmod. Destination-untouched-on-failure is C04.O5. Not decided: umask '
-        'arithmetic, simultaneous independent faults beyond one fault plus one cleanup fault.'),
-    'decided': ['R1 cleanup on all exceptional exits', 'R2 never silent', 'R3 early refusal', 'R4 part-file protection',
+        'arithmetic, simultaneous independent faults beyond one fault plus one cleanup fault.'
+        ' R4b: no cleanup handler covers the exclusive os.open of the part file itself.'),
+    'decided': ['foreign part file untouched on failed create', 'R1 cleanup on all exceptional exits', 'R2 never silent', 'R3 early refusal', 'R4 part-file protection',
                 'R5 no-clobber publication', 'R6 permission provenance'],
     'declined': ['umask arithmetic', 'arbitrary fault pairs outside cleanup handlers', 'Windows branch'],
     'trusted_base': ['link(2) fails atomically with EEXIST', 'O_EXCL semantics', 'OS calls fail only with OSError'],
